@@ -60,4 +60,46 @@ def WellTimed (g : Nat) : Nat → Nat → Bool → List Ev → Prop
   | now, lp, d, .dryUp τ :: r => now ≤ τ ∧ (d = true ∨ τ ≤ lp + g) ∧ WellTimed g τ lp true r
   | now, lp, d, .cancel τ :: r => now ≤ τ ∧ WellTimed g τ lp d r
 
+
+/-! ### pages linked by `next` and by `future` links — the two-level loop of the stream paginators without the clock:
+    the embedded AbstractPaginator follows `next` links; when it has nothing more, the stream loop looks at the page the
+    paginator is on NOW and follows its `future` link (the future page being available). -/
+
+inductive Link | none | next | future
+  deriving Repr, DecidableEq, Inhabited
+
+structure SPg where
+  items : List Nat
+  link : Link
+  deriving Repr, DecidableEq, Inhabited
+
+/-- `AbstractPaginator.HasNext`: moves along `next` links only -/
+def absHasNext (cur : SPg) (pos : Nat) (rest : List SPg) : Bool × SPg × Nat × List SPg :=
+  match rest with
+  | [] => (decide (pos < cur.items.length), cur, pos, [])
+  | p :: r =>
+    if pos < cur.items.length then (true, cur, pos, p :: r)
+    else if cur.link ≠ .next then (false, cur, pos, p :: r)
+    else absHasNext p 0 r
+
+/-- the stream paginator's HasNext: item test first (which may move the paginator), THEN the current page's future link -/
+def streamHasNext : Nat → SPg → Nat → List SPg → Bool × SPg × Nat × List SPg
+  | 0, cur, pos, rest => (false, cur, pos, rest)
+  | fuel + 1, cur, pos, rest =>
+    let a := absHasNext cur pos rest
+    if a.1 then a
+    else if a.2.1.link ≠ .future then (false, a.2.1, a.2.2.1, a.2.2.2)
+    else match a.2.2.2 with
+      | [] => (false, a.2.1, a.2.2.1, a.2.2.2)
+      | p :: r => streamHasNext fuel p 0 r
+
+/-- the same chain with every link seen as a `next` link -/
+def flatHasNext (cur : SPg) (pos : Nat) (rest : List SPg) : Bool × SPg × Nat × List SPg :=
+  match rest with
+  | [] => (decide (pos < cur.items.length), cur, pos, [])
+  | p :: r =>
+    if pos < cur.items.length then (true, cur, pos, p :: r)
+    else if cur.link = .none then (false, cur, pos, p :: r)
+    else flatHasNext p 0 r
+
 end GoUtils.PageStream
